@@ -96,15 +96,16 @@ pub fn m_views(s: &Snap, tick: u32, ever_disabled: bool) -> Verdict {
             return (0, 0);
         }
         let side = if bid { &bids } else { &asks };
-        let mut vol = 0u32;
+        let mut vol = 0u64;
         let mut n = 0u32;
         for o in side.iter() {
             if o.price as i64 == p {
-                vol += o.vol;
+                vol += o.vol as u64;
                 n += 1;
             }
         }
-        (vol, n)
+        // (valid histories keep every side below 2^32; saturate rather than abort the harness)
+        (vol.min(u32::MAX as u64) as u32, n)
     };
     let b0 = if bids.is_empty() { (0, 0) } else { lvl(true, tb as i64) };
     let a0 = if asks.is_empty() { (0, 0) } else { lvl(false, ta as i64) };
@@ -591,9 +592,12 @@ pub fn drain_probe<const L: usize>(book: &mut OrderBook<L>, m: &mut RefModel) ->
         let t = book.get_time() + 1;
         book.set_time(t);
         m.set_time(m.t + 1);
+        // the probe itself stays inside the validity clause: the traded-volume counter restarts per sweep
+        book.reset_trade_vol();
+        m.reset_trade_vol();
         let opp_impl = if bid { book.ask_vol() } else { book.bid_vol() } as u64;
         let opp_model = m.side_vol(!bid);
-        let vol = (opp_impl + opp_model + 1).min(u32::MAX as u64 / 2) as u32;
+        let vol = (opp_impl + opp_model + 1).min(u32::MAX as u64) as u32;
         let _ = book.create_and_place_order(if bid { Side::Bid } else { Side::Ask }, vol, 9, None);
         let i = m.create(bid, vol, 9, None).unwrap();
         m.place(i);
